@@ -528,3 +528,64 @@ def boundary_values(spec):
                 {"t": "list", "v": [{"t": "float", "v": "nan"}, {"t": "float", "v": "nan"}]}, {"t": "list", "v": [1, 2, 3]},
                 {"t": "tuple", "v": ["a", "b", "a"]}, {"t": "list", "v": [{"t": "list", "v": [1]}, {"t": "list", "v": [1]}]}]
     return [x for x in out if x is not None or True]
+
+
+# -- well-typed values (C02) -------------------------------------------------------------------------
+
+_WT_TAG = {"int": int, "float": float, "decimal": "decimal", "str": str, "bytes": bytes, "list": list, "tuple": tuple,
+           "set": set, "frozenset": frozenset, "dict": dict}
+
+
+def _exact_type(vs, o):
+    import datetime as _dt
+    import decimal as _dec
+    try:
+        v = codec.decode(vs)
+    except Exception:
+        return False
+    want = {"int": int, "float": float, "decimal": _dec.Decimal, "str": str, "bytes": bytes, "list": list,
+            "tuple": tuple, "set": set, "frozenset": frozenset, "dict": dict, "date": _dt.date,
+            "datetime": _dt.datetime, "time": _dt.time, "timedelta": _dt.timedelta}[o]
+    return type(v) is want
+
+
+def welltyped(spec):
+    """ValueSpecs whose decoded value has exactly the source type of a `con` spec, concentrated on
+    the declared bounds (boundary_values filtered by type) and mixed with general values of the type."""
+    o = spec["o"]
+    small = st.one_of(st.integers(-3, 3), st.sampled_from(["a", "b", "", "1"]), st.booleans(), st.none(),
+                      st.sampled_from([{"t": "float", "v": "1.0"}, {"t": "float", "v": "nan"}, {"t": "decimal", "v": "1"}]))
+    hsmall = st.one_of(st.integers(-3, 3), st.sampled_from(["a", "b", "", "1"]), st.booleans(), st.none(),
+                       st.sampled_from([{"t": "float", "v": "1.0"}]))
+    base = {
+        "int": st.one_of(st.integers(-25, 25), st.integers(-1200, 1200), ints.filter(lambda x: not isinstance(x, bool)),
+                         st.integers(0, 7).map(lambda n: 10 ** n), st.integers(0, 7).map(lambda n: 10 ** n - 1),
+                         st.integers(0, 7).map(lambda n: -(10 ** n))),
+        "float": st.one_of(floats, st.integers(-100, 100).map(lambda i: {"t": "float", "v": repr(i / 4)}),
+                           st.integers(-2000, 2000).map(lambda i: {"t": "float", "v": repr(i / 100)}),
+                           st.integers(-30, 30).map(lambda i: {"t": "float", "v": repr(float(i))})),
+        "decimal": st.one_of(decimals, st.integers(-2000, 2000).map(lambda i: {"t": "decimal", "v": str(i / 100)}),
+                             st.tuples(st.integers(-9999, 9999), st.integers(-5, 3)).map(lambda t: {"t": "decimal", "v": f"{t[0]}E{t[1]}"}),
+                             st.integers(-30, 30).map(lambda i: {"t": "decimal", "v": str(i)}),
+                             st.tuples(st.integers(-30, 30), st.integers(1, 3)).map(lambda t: {"t": "decimal", "v": f"{t[0]}." + "0" * t[1]})),
+        "str": st.one_of(strs, st.text(alphabet="ab1-@ \nAB", max_size=6), st.sampled_from(
+            ["a", "ab", "abc", "abcd", "abcde", "12", "123", "1234", "12345", "abc\n", "a-b", "Ab", "ABc", "bc", "x@y", "12\n", "a\nc"])),
+        "bytes": bytes_,
+        "list": st.lists(small, max_size=5).map(lambda v: {"t": "list", "v": v}),
+        "tuple": st.lists(small, max_size=5).map(lambda v: {"t": "tuple", "v": v}),
+        "set": st.lists(hsmall, max_size=5).map(lambda v: {"t": "set", "v": v}),
+        "frozenset": st.lists(hsmall, max_size=5).map(lambda v: {"t": "frozenset", "v": v}),
+        "dict": st.lists(st.tuples(st.sampled_from(["a", "b", "c", "d", "e"]), small).map(list), max_size=5,
+                         unique_by=lambda p: p[0]).map(lambda v: {"t": "dict", "v": v}),
+        "date": st.one_of(dates, st.integers(-2, 2).map(lambda d: {"t": "date", "v": (dt.date(2020, 1, 15) + dt.timedelta(days=d)).isoformat()})),
+        "datetime": st.one_of(st.integers(-2, 2).map(lambda us: {"t": "datetime", "v": (dt.datetime(2020, 1, 15, 12) + dt.timedelta(microseconds=us)).isoformat()}),
+                              st.datetimes(min_value=dt.datetime(1, 1, 2), max_value=dt.datetime(9999, 12, 30)).map(lambda d: {"t": "datetime", "v": d.isoformat()})),
+        "time": st.one_of(times, st.sampled_from(["12:00:00", "12:00:00.000001", "11:59:59.999999"]).map(lambda s: {"t": "time", "v": s})),
+        "timedelta": st.one_of(timedeltas, st.integers(-2, 2).map(lambda us: (dt.timedelta(days=1) + dt.timedelta(microseconds=us))).map(
+            lambda x: {"t": "timedelta", "v": [x.days, x.seconds, x.microseconds]})),
+    }[o]
+    extra = [x for x in boundary_values(spec) if _exact_type(x, o)]
+    opts = [base]
+    if extra:
+        opts += [st.sampled_from(extra), st.sampled_from(extra)]
+    return st.one_of(*opts).filter(lambda vs: _exact_type(vs, o))
